@@ -295,6 +295,120 @@ theorem tokenid_err_rejects (ty : PType) (t : Tok) (valid : Bool)
     · rfl
     · rw [hv hvv] at h; cases h
 
+/-! ## 3b. without a database: the issued-at check, under the hypothesis the code tests -/
+
+/-- a request that still has the issued-at check ahead of it and whose token is older than the
+    current start never gets past that check -/
+theorem step_blocked (g : G) (r : Req) (hchk : g.iatCheck = true) (i : Nat) (hi : r.inp.iat = some i)
+    (hlt : i < g.start) (hp : r.out = .pending → r.pc ≤ 1) :
+    ((step g r).2.out = .pending → (step g r).2.pc ≤ 1) ∧ (step g r).1 = g ∧ (step g r).2.inserted = r.inserted := by
+  unfold step
+  split
+  · exact ⟨hp, rfl, rfl⟩
+  · rename_i hpend
+    have hpend : r.out = .pending := by simpa using hpend
+    have := hp hpend
+    have h01 : r.pc = 0 ∨ r.pc = 1 := by omega
+    rcases h01 with h0 | h1
+    · rw [h0]; simp only []; cases r.inp.lookupOK <;> simp
+    · rw [h1]; simp [hchk, hi, hlt]
+
+def InvN (k : Str) (bound : Nat) (s : G × List Req) : Prop :=
+  s.1.persistent = false ∧ s.1.iatCheck = true ∧
+  (∀ r ∈ s.2, r.key = some k → ∃ i, r.inp.iat = some i ∧ i ≤ bound) ∧
+  s.2.countP (insertedWith k) ≤ 1 ∧
+  (bound < s.1.start → ∀ r ∈ s.2, r.key = some k → r.out = .pending → r.pc ≤ 1) ∧
+  (¬ bound < s.1.start → has s.1.store k = false → s.2.countP (insertedWith k) = 0)
+
+theorem invN_exec (k : Str) (bound : Nat) (s : G × List Req) (e : Ev)
+    (he : ∀ now, e = .restart now → bound < now) : InvN k bound s → InvN k bound (machine.exec s e) := by
+  intro ⟨hp, hchk, hiat, h1, hafter, hbefore⟩
+  cases e with
+  | restart now =>
+    have hnow := he now rfl
+    simp only [Machine.exec, machine, InvN, restartG]
+    have hcnt : (List.map restartL s.2).countP (insertedWith k) = s.2.countP (insertedWith k) := by
+      rw [List.countP_map]; congr 1; funext r; exact restartL_inserted k r
+    refine ⟨hp, hchk, ?_, by rw [hcnt]; exact h1, ?_, fun h => absurd hnow h⟩
+    · intro r hr hk
+      rcases List.mem_map.1 hr with ⟨r', hr', rfl⟩
+      have : (restartL r').inp = r'.inp := by unfold restartL; split <;> simp
+      have hk' : r'.key = some k := by unfold Req.key at hk ⊢; rw [this] at hk; exact hk
+      rw [this]; exact hiat r' hr' hk'
+    · intro _ r hr hk hpend
+      rcases List.mem_map.1 hr with ⟨r', hr', rfl⟩
+      revert hpend
+      unfold restartL
+      split
+      · simp
+      · rename_i hn; intro hpend
+        cases hpc : r'.pc with
+        | zero => omega
+        | succ n => exact absurd ⟨hpend, by omega⟩ hn
+  | step t =>
+    simp only [Machine.exec, machine]
+    cases hr : s.2[t]? with
+    | none => exact ⟨hp, hchk, hiat, h1, hafter, hbefore⟩
+    | some r =>
+      show InvN k bound ((step s.1 r).1, s.2.set t (step s.1 r).2)
+      unfold InvN; dsimp only
+      have hmem := mem_of_getElem? _ _ _ hr
+      have hkey := step_key s.1 r
+      have hinp := step_inp s.1 r
+      have hiat' : ∀ y ∈ s.2.set t (step s.1 r).2, y.key = some k → ∃ i, y.inp.iat = some i ∧ i ≤ bound :=
+        forall_set _ s.2 t _ hiat (by rw [hkey, hinp]; exact hiat r hmem)
+      by_cases hmode : bound < s.1.start
+      · -- after a restart that is later than every token of id k
+        by_cases hrk : r.key = some k
+        · obtain ⟨i, hi, hib⟩ := hiat r hmem hrk
+          obtain ⟨hb1, hb2, hb3⟩ := step_blocked s.1 r hchk i hi (by omega) (hafter hmode r hmem hrk)
+          have hsame : insertedWith k (step s.1 r).2 = insertedWith k r := by
+            unfold insertedWith; rw [hb3, hkey]
+          rw [hb2]
+          refine ⟨hp, hchk, hiat', by rw [countP_set_same _ _ _ _ _ hr hsame]; exact h1, ?_, fun h => absurd hmode h⟩
+          intro _
+          exact forall_set _ s.2 t _ (hafter hmode) (fun _ => hb1)
+        · -- another id: its CAS does not count for k
+          have hx : insertedWith k (step s.1 r).2 = false := by
+            unfold insertedWith; rw [hkey]; simp; intro _; exact hrk
+          have ha : insertedWith k r = false := by
+            unfold insertedWith; simp; intro _; exact hrk
+          have hstart : (step s.1 r).1.start = s.1.start ∧ (step s.1 r).1.persistent = s.1.persistent ∧ (step s.1 r).1.iatCheck = s.1.iatCheck := by
+            rcases step_cases s.1 r with ⟨hg, _⟩ | ⟨k', _, _, hg, _⟩ <;> rw [hg] <;> simp
+          refine ⟨by rw [hstart.2.1]; exact hp, by rw [hstart.2.2]; exact hchk, hiat',
+            by rw [countP_set_same _ _ _ _ _ hr (by rw [hx, ha])]; exact h1, ?_, fun h => absurd (by rw [hstart.1]; exact hmode) h⟩
+          intro _
+          exact forall_set _ s.2 t _ (hafter hmode) (fun hk => absurd (by rw [hkey] at hk; exact hk) hrk)
+      · -- no such restart yet: the table argument of the persistent case
+        have hI : Inv k ({ s.1 with persistent := true }, s.2) := ⟨rfl, h1, hbefore hmode⟩
+        have hstep : step { s.1 with persistent := true } r = ({ (step s.1 r).1 with persistent := true }, (step s.1 r).2) := by
+          unfold step; (repeat' split) <;> simp_all <;> omega
+        have := inv_exec k ({ s.1 with persistent := true }, s.2) (.step t) hI
+        simp only [Machine.exec, machine, hr, hstep] at this
+        obtain ⟨_, c1, c0⟩ := this
+        have hstart : (step s.1 r).1.start = s.1.start ∧ (step s.1 r).1.persistent = s.1.persistent ∧ (step s.1 r).1.iatCheck = s.1.iatCheck := by
+          rcases step_cases s.1 r with ⟨hg, _⟩ | ⟨k', _, _, hg, _⟩ <;> rw [hg] <;> simp
+        refine ⟨by rw [hstart.2.1]; exact hp, by rw [hstart.2.2]; exact hchk, hiat', c1,
+          fun h => absurd (by rw [hstart.1] at h; exact h) hmode, fun _ => c0⟩
+
+/-- **no_db_restart_partial.** Without a database (the table is emptied by every restart), with
+    the issued-at check on: if every restart of the history falls into a second strictly later
+    than the `iat` of every token presented under id `k` — the hypothesis is exactly what the
+    code tests, `iat < startTime` on whole seconds — then again at most one request gets past
+    the CAS under `k`, for every interleaving and placement of such restarts. The same-second
+    case is `no_db_same_second_replay`. -/
+theorem no_db_restart_partial (g : G) (hnp : g.persistent = false) (hchk : g.iatCheck = true)
+    (rs : List Req) (hfresh : ∀ r ∈ rs, r.fresh) (k : Str) (bound : Nat)
+    (hiat : ∀ r ∈ rs, r.key = some k → ∃ i, r.inp.iat = some i ∧ i ≤ bound)
+    (evs : List Ev) (hrs : ∀ e ∈ evs, ∀ now, e = .restart now → bound < now) :
+    (machine.run (g, rs) evs).2.countP (insertedWith k) ≤ 1 := by
+  have h0 : rs.countP (insertedWith k) = 0 :=
+    fresh_count_zero _ rs (fun r hr => by unfold insertedWith; rw [(hfresh r hr).2.1]; rfl)
+  have := Machine.run_inv_of machine (InvN k bound) (fun e => ∀ now, e = .restart now → bound < now)
+    (fun s e he h => invN_exec k bound s e he h) evs (g, rs) hrs
+    ⟨hnp, hchk, hiat, by rw [h0]; omega, fun _ r hr _ _ => by rw [(hfresh r hr).1]; omega, fun _ _ => h0⟩
+  exact this.2.2.2.1
+
 /-! ## 4. what the code as it stands does not give (D12) -/
 
 def mkReq (iat : Option Nat) (idr : IdR) (sha : Str) : Req :=
@@ -336,5 +450,11 @@ example : (machine.run ({ store := [], persistent := true, iatCheck := true, sta
     [mkReq (some 100) (.id (s "a")) [1], mkReq (some 101) (.id (s "a")) [1]])
     [.step 0, .step 1, .step 1, .step 0, .step 1, .step 0, .step 0, .step 1]).2.map (·.out)
     = [.denyUsed, .authorized] := by decide
+
+example : ∃ evs, (machine.run ({ store := [], persistent := false, iatCheck := true, start := 100 },
+    [mkReq (some 100) (.id (s "a")) [1], mkReq (some 100) (.id (s "a")) [1]]) evs).2.map (·.out)
+    = [.authorized, .denyIat] :=
+  ⟨[.step 0, .step 0, .step 0, .step 0, .restart 101, .step 1, .step 1, .step 1, .step 1], by decide⟩
+
 
 end Verif.OTT
